@@ -57,9 +57,11 @@ func ConvertColumn(rel *ast.TableName, c *catalog.Column) *Column {
 }
 
 func (qc QueryCatalog) GetTable(rel *ast.TableName) (*Table, error) {
-	cte, exists := qc.ctes[rel.Name]
-	if exists {
-		return cte, nil
+	// a schema-qualified name never refers to a CTE
+	if rel.Schema == "" {
+		if cte, exists := qc.ctes[rel.Name]; exists {
+			return cte, nil
+		}
 	}
 	src, err := qc.catalog.GetTable(rel)
 	if err != nil {
